@@ -172,12 +172,12 @@ func c20Total(p *core.Program, r *core.Report, t *types.Named) {
 			s = strings.ReplaceAll(s, rn+".", "this.")
 			return strings.ReplaceAll(s, other+".", "o.")
 		}
-		ps, over := paths.Enumerate(fi.Decl.Body, paths.Config{Info: info,
+		// unexported helpers (a `valueOf(key)` accessor, say) are followed with the receiver they are
+		// called on, so an assertion on the OTHER map's look-up is seen wherever it is written
+		in := newInliner(p, fi, nil)
+		ps, over := paths.Enumerate(fi.Decl.Body, paths.Config{Info: info, Inline: in.Body, Expand: in.Expand,
 			Cond: func(c ast.Expr, v bool) *paths.Event {
 				s := norm(c)
-				if id, ok := ast.Unparen(c).(*ast.BinaryExpr); ok {
-					_ = id
-				}
 				s = strings.ReplaceAll(s, other+"==nil", "o==nil")
 				s = strings.ReplaceAll(s, other+"!=nil", "o!=nil")
 				return &paths.Event{Kind: "COND", Arg: fmt.Sprintf("%s=%v", s, v), Pos: c.Pos()}
